@@ -255,3 +255,27 @@ def filter_drops_deleted(P, h):
             if not (r == ("const", 0) or (r is not None and r[0] == "atom" and r[1] == A and r[2] is True)):
                 return False
     return True
+
+
+GET_DOC_FN = "searchlite_core::index::segment::SegmentReader::get_doc"
+
+
+def compaction_chain(P, comp):
+    """Bodies and call sites on the call paths from Index::compact down to SegmentReader::get_doc that stay inside private
+    functions of compact's file (closures included): [(body, block, terminator, callee is get_doc itself)] and the helper fns."""
+    helpers = []
+    for q in sorted(P.reach(comp.path)):
+        h = P.fns.get(q)
+        if h is not None and h.kind != "closure" and h.file == comp.file and h.vis != "Public" and h.path != comp.path and \
+                GET_DOC_FN in P.reach(h.path):
+            helpers.append(h)
+    hp = {h.path for h in helpers}
+    sites = []
+    for fn0 in [comp] + helpers:
+        for g in [fn0] + P.closures_of(fn0):
+            for b, t in g.calls():
+                from sa.prog import callee_of
+                cal = callee_of(t)
+                if cal == GET_DOC_FN or cal in hp:
+                    sites.append((g, b, t, cal == GET_DOC_FN))
+    return sites, helpers
